@@ -369,7 +369,9 @@ def cubes_graph(tier, seed):
 VAL_BODIES = ['role:x', 'rule:{0}', 'rule:{1}', 'not rule:{1}', 'rule:nope',
               'not rule:nope', 'rule:{0} and role:x', 'role:x or not rule:{0}',
               '(bar))', '!', 'rule:reg2', 'not (rule:reg2 or rule:{1})',
-              '(!', '!)', '( ! ) )', 'role:x and']
+              '(!', '!)', '( ! ) )', 'role:x and',
+              # well-formed spellings of the deny rule: nothing to report
+              '(!)', ' ! ', '( ( ! ) )', 'not @', '! or !']
 
 
 def run_validator(ctx, nfile):
